@@ -67,11 +67,8 @@ KF_INT = "KF-generic-int-range"
 KF_FLOORDIV = "KF-floordiv-bound"
 KF_BITWISE = "KF-bitwise-int-range"
 KF_SHAPE = "KF-generic-unary-shape"
-KF_KEEPDIMS = "KF-scalar-reduction-keepdims"
 DIVISOR_OPS = ("floordiv", "mod", "truediv", "safediv")
 KF_WHAT = {
-    KF_KEEPDIMS: "eager_reduction_tensor on a scalar operand ignores keepdims: result keeps the temporary axis "
-                 "(Reals[1]) while the lazy term and numpy give a scalar",
     KF_INT: "generic same-dtype rules keep Bint[n] although values leave [0,n) or are not integers",
     KF_FLOORDIV: "Bint[n]//Bint[m] declared Bint[(n-1)//(m-1)+1], too small unless the divisor is maximal",
     KF_BITWISE: "and_/or_/xor on Bint[n>2] operands declared Bint[2]",
@@ -543,8 +540,6 @@ class Run:
     @staticmethod
     def term_region(op, rule, doms):
         """regions that only show at term level (the declared type is right, the eager rule is not)"""
-        if rule == "_find_domain_reduction" and not doms[0].shape and op.defaults.get("keepdims"):
-            return KF_KEEPDIMS
         return None
 
     def add(self, stream, op, doms, finitary=False, variants=("rand",), term=None):
@@ -849,6 +844,14 @@ def streams(run, tier, full_box=False):
                         if name in ("all", "any", "sum", "amax"):
                             run.add("reduction", op, [dom_of(2, sh)], variants=("max", "zero"),
                                     term=want_term(UNARY_BATCHES))
+    # scalar operands x keepdims x every reduction, always at term level (eager_reduction_tensor's scalar branch)
+    for name in REDUCTIONS:
+        for ax in (None, (), 0, -1):
+            for keep in (False, True):
+                op = mkop(name, axis=ax, keepdims=keep)
+                run.add("reduction-scalar", op, [dom_of("real", ())], term=UNARY_BATCHES)
+                if name in ("all", "any"):
+                    run.add("reduction-scalar", op, [dom_of(2, ())], variants=("max", "zero"), term=UNARY_BATCHES)
     run.flush()
 
     # ---- reshape ------------------------------------------------------------------------------
@@ -893,10 +896,11 @@ def streams(run, tier, full_box=False):
     for sh in small_shapes:
         pool = parts_pool + some_slices(rng, nslice)
         for k in range(0, len(sh) + 3):
-            combos = list(itertools.product(range(len(pool)), repeat=k))
             limit = 60 if quick else 400
-            if len(combos) > limit:
+            if len(pool) ** k > limit:
                 combos = [tuple(rng.randrange(len(pool)) for _ in range(k)) for _ in range(limit)]
+            else:
+                combos = list(itertools.product(range(len(pool)), repeat=k))
             for combo in combos:
                 index = tuple(pool[i] for i in combo)
                 if sum(1 for p in index if p is Ellipsis) > 1:
@@ -1031,7 +1035,7 @@ def streams(run, tier, full_box=False):
 
 
 def report_known(ctx, run):
-    for fid in (KF_INT, KF_FLOORDIV, KF_BITWISE, KF_SHAPE, KF_KEEPDIMS):
+    for fid in (KF_INT, KF_FLOORDIV, KF_BITWISE, KF_SHAPE):
         hit = run.known_hits.get(fid) or run.known_hits.get(fid + "/term")
         ctx.extra.setdefault("known_regions", {})[fid] = dict(cases=run.known_seen.get(fid, 0), witness=hit)
         if not run.known_seen.get(fid):
